@@ -316,7 +316,7 @@ def load_known(prop: str):
     if not p.exists():
         return []
     data = json.loads(p.read_text())
-    return [f for f in data.get("findings", []) if f.get("property") == prop]
+    return [f for f in data.get("findings", []) if f.get("property") == prop or prop in f.get("properties", [])]
 
 
 # ---------------------------------------------------------------------------- evidence and reporting
